@@ -1,9 +1,10 @@
 """C14 -- Term constructors return equivalent terms (partial: Boolean connectives, ite, equality; constant folding of div/mod)."""
 import os, re
 from vrun import Job, VERIF
+import checks.C27 as C27
 LOGIC_STUBS = ('opensmt::Logic::mkFun', 'opensmt::Logic::termSort', 'opensmt::Logic::hasSortBool', 'opensmt::Logic::isNot', 'opensmt::Logic::isTrue', 'opensmt::Logic::isFalse', 'opensmt::Logic::getPterm',
                'opensmt::Logic::getTerm_true', 'opensmt::Logic::getTerm_false', 'opensmt::Logic::getSym_not', 'opensmt::Logic::getSym_and', 'opensmt::Logic::getSym_or', 'opensmt::Logic::getSym_xor',
-               'opensmt::Logic::getSortRef', 'opensmt::Logic::getSort_bool', 'opensmt::Logic::isConstant', 'opensmt::Pterm::operator[]', 'opensmt::Pterm::size', 'Map_SRef_SymRef_SRefHash_Equal_SRef__has', 'Map_SRef_SymRef_SRefHash_Equal_SRef__op_index__SRef_R_646f1c')
+               'opensmt::Logic::getSortRef', 'opensmt::Logic::getSort_bool', 'opensmt::Logic::isConstant', 'opensmt::Pterm::operator[]', 'opensmt::Pterm::size', 'vec_PTRef__capacity__int', 'vec_PtAsgn__capacity__int', 'Map_SRef_SymRef_SRefHash_Equal_SRef__has', 'Map_SRef_SymRef_SRefHash_Equal_SRef__op_index__SRef_R_646f1c')
 H_PRE = '''/* the argument pool: true, false, Boolean atoms a b c with arbitrary truth values, their negations, one conjunction, one disjunction; two variables and two
    distinct constants of the uninterpreted sort */
 static t_u32 h_pool_n;
@@ -11,8 +12,8 @@ static void h_setup(void) {
   h_init();
   struct PTRef a = h_mk(K_ATOM, S_BOOL, nondet_bool()), b = h_mk(K_ATOM, S_BOOL, nondet_bool()), c = h_mk(K_ATOM, S_BOOL, nondet_bool());
   struct PTRef u = h_mk(K_UVAR, S_U, nondet_uchar() & 3), v = h_mk(K_UVAR, S_U, nondet_uchar() & 3), k1 = h_mk(K_UCONST, S_U, 0), k2 = h_mk(K_UCONST, S_U, 1);
-  h_app(K_NOT, 1, a.x, 0, 0); h_app(K_NOT, 1, b.x, 0, 0); h_app(K_AND, 2, a.x, b.x, 0); h_app(K_OR, 2, b.x, c.x, 0);
-  struct PTRef ab = h_app(K_AND, 2, a.x, c.x, 0); h_app(K_NOT, 1, ab.x, 0, 0); h_app(K_EQ, 2, u.x, v.x, 0);
+  h_app(K_NOT, 1, a.x, 0, 0); h_app(K_NOT, 1, b.x, 0, 0);
+  struct PTRef ab = h_app(K_AND, 2, a.x, c.x, 0); h_app(K_NOT, 1, ab.x, 0, 0);
   h_pool_n = (t_u32)g_nt; g_mkfun_calls = 0;
 }
 static struct PTRef h_pick(void) { struct PTRef r; r.x = nondet_uchar(); __CPROVER_assume(r.x < h_pool_n); return r; }
@@ -20,9 +21,9 @@ static struct PTRef h_pick_bool(void) { struct PTRef r = h_pick(); __CPROVER_ass
 #define RES_OK(r) __CPROVER_assert((r).x < (t_u32)g_nt, "the result is a term of the store")
 #define RES_BOOL(r) __CPROVER_assert(g_t[(r).x < NT ? (r).x : 0].sort == S_BOOL, "the result has sort Bool")
 '''
-def bjob(name, root, harness, defines=(), **kw):
+def bjob(name, root, harness, defines=(), extra_stubs=(), **kw):
     return Job(name + '.R', 'src/logics/Logic.cc', root, tier='R', header='contracts/C14/bool.h', harness=H_PRE + harness, enforce=False, pre_includes=('stubs/gmp_types.h', 'stubs/std_types.h', 'contracts/C14/types.h'),
-               defines=defines, stubs=LOGIC_STUBS, opaque=('opensmt::Logic', 'opensmt::Pterm', 'opensmt::PtStore'), default_unwind=26, min_obligations=3, object_bits=12, **kw)
+               defines=defines, stubs=LOGIC_STUBS + tuple(extra_stubs), opaque=('opensmt::Logic', 'opensmt::Pterm', 'opensmt::PtStore'), default_unwind=26, min_obligations=3, object_bits=12, **kw)
 H_NOT = '''void harness(void) { h_setup(); struct PTRef x = h_pick_bool();
   struct PTRef r = Logic__mkNot__PTRef((struct Logic *)0, x);
   RES_OK(r); RES_BOOL(r);
@@ -30,12 +31,22 @@ H_NOT = '''void harness(void) { h_setup(); struct PTRef x = h_pick_bool();
   OSMT_REACH("return");
 }
 '''
-HARNESS = {'mkImpl': ('Logic__mkImpl__vec_PTRef_RR', 'void harness(void) { h_setup(); struct PTRef x = h_pick_bool(), y = h_pick_bool();\n  struct PTRef d[3]; d[0] = x; d[1] = y; struct vec_PTRef v; v.data = d; v.sz = 2; v.cap = 3;\n  struct PTRef r = Logic__mkImpl__vec_PTRef_RR((struct Logic *)0, &v);\n  RES_OK(r); RES_BOOL(r);\n  __CPROVER_assert(den_of(r.x) == (!den_of(x.x) || den_of(y.x)), "mkImpl(x, y) denotes x => y");\n  OSMT_REACH("return");\n}\n', ()), 'mkXor': ('Logic__mkXor__vec_PTRef_RR', 'void harness(void) { h_setup(); struct PTRef x = h_pick_bool(), y = h_pick_bool();\n  struct PTRef d[3]; d[0] = x; d[1] = y; struct vec_PTRef v; v.data = d; v.sz = 2; v.cap = 3;\n  struct PTRef r = Logic__mkXor__vec_PTRef_RR((struct Logic *)0, &v);\n  RES_OK(r); RES_BOOL(r);\n  __CPROVER_assert(den_of(r.x) == (den_of(x.x) != den_of(y.x)), "mkXor(x, y) denotes x xor y");\n  OSMT_REACH("return");\n}\n', ()), 'mkIte': ('Logic__mkIte__vec_PTRef_RR', 'void harness(void) { h_setup(); struct PTRef c = h_pick_bool(), x = h_pick(), y = h_pick(); __CPROVER_assume(g_t[x.x].sort == g_t[y.x].sort);\n  struct PTRef d[3]; d[0] = c; d[1] = x; d[2] = y; struct vec_PTRef v; v.data = d; v.sz = 3; v.cap = 3;\n  struct PTRef r = Logic__mkIte__vec_PTRef_RR((struct Logic *)0, &v);\n  __CPROVER_assert(!__osmt_thrown, "a well-sorted ite is accepted");\n  RES_OK(r); __CPROVER_assert(g_t[r.x < NT ? r.x : 0].sort == g_t[x.x].sort, "the ite has the sort of its branches");\n  __CPROVER_assert(den_of(r.x) == (den_of(c.x) ? den_of(x.x) : den_of(y.x)), "mkIte(c, x, y) denotes if c then x else y");\n  OSMT_REACH("return");\n}\n', ('C14_SORTS', 'C14_MAPS', 'C14_ITE')), 'mkBinaryEq': ('opensmt::Logic::mkBinaryEq', 'void harness(void) { h_setup(); struct PTRef x = h_pick(), y = h_pick(); __CPROVER_assume(g_t[x.x].sort == g_t[y.x].sort);\n  struct PTRef r = Logic__mkBinaryEq((struct Logic *)0, x, y);\n  RES_OK(r); RES_BOOL(r);\n  __CPROVER_assert(den_of(r.x) == (den_of(x.x) == den_of(y.x)), "mkBinaryEq(x, y) denotes x = y (different constants denote different values)");\n  OSMT_REACH("return");\n}\n', ('C14_SORTS', 'C14_MAPS')), 'mkAnd': ('Logic__mkAnd__vec_PTRef_RR', 'void harness(void) { h_setup(); t_int n = nondet_uchar() & 3;\n  struct PTRef d[3]; t_bool want = 1;\n  for (int k = 0; k < 3; k++) if (k < n) { d[k] = h_pick_bool(); want = want && (den_of(d[k].x) != 0); }\n  struct vec_PTRef v; v.data = (struct PTRef *)realloc((void *)0, 3 * sizeof(struct PTRef)); for (int k = 0; k < 3; k++) if (k < n) v.data[k] = d[k]; v.sz = n; v.cap = 3;\n  struct PTRef r = Logic__mkAnd__vec_PTRef_RR((struct Logic *)0, &v);\n  RES_OK(r); RES_BOOL(r);\n  __CPROVER_assert((den_of(r.x) != 0) == want, "mkAnd(args) denotes the conjunction of its arguments (0 to 3 arguments, any repetition or complement among them)");\n  OSMT_REACH("return");\n}\n', ('C14_SORTCALL',)), 'mkOr': ('Logic__mkOr__vec_PTRef_RR', 'void harness(void) { h_setup(); t_int n = nondet_uchar() & 3;\n  struct PTRef d[3]; t_bool want = 0;\n  for (int k = 0; k < 3; k++) if (k < n) { d[k] = h_pick_bool(); want = want || (den_of(d[k].x) != 0); }\n  struct vec_PTRef v; v.data = (struct PTRef *)realloc((void *)0, 3 * sizeof(struct PTRef)); for (int k = 0; k < 3; k++) if (k < n) v.data[k] = d[k]; v.sz = n; v.cap = 3;\n  struct PTRef r = Logic__mkOr__vec_PTRef_RR((struct Logic *)0, &v);\n  RES_OK(r); RES_BOOL(r);\n  __CPROVER_assert((den_of(r.x) != 0) == want, "mkOr(args) denotes the disjunction of its arguments (0 to 3 arguments, any repetition or complement among them)");\n  OSMT_REACH("return");\n}\n', ('C14_SORTCALL',)), 'mkEq': ('Logic__mkEq__vec_PTRef_RR', 'void harness(void) { h_setup(); t_int n = 2 + (nondet_uchar() & 1);\n  struct PTRef d[3]; d[0] = h_pick(); d[1] = h_pick(); d[2] = h_pick();\n  __CPROVER_assume(g_t[d[0].x].sort == g_t[d[1].x].sort && (n < 3 || g_t[d[2].x].sort == g_t[d[0].x].sort));\n  t_bool want = den_of(d[0].x) == den_of(d[1].x) && (n < 3 || den_of(d[1].x) == den_of(d[2].x));\n  struct vec_PTRef v; v.data = (struct PTRef *)realloc((void *)0, 3 * sizeof(struct PTRef)); for (int k = 0; k < 3; k++) v.data[k] = d[k]; v.sz = n; v.cap = 3;\n  struct PTRef r = Logic__mkEq__vec_PTRef_RR((struct Logic *)0, &v);\n  RES_OK(r); RES_BOOL(r);\n  __CPROVER_assert((den_of(r.x) != 0) == want, "mkEq(args) denotes the chain a1 = a2 (= a3)");\n  OSMT_REACH("return");\n}\n', ('C14_SORTS', 'C14_MAPS', 'C14_SORTCALL'))}
+HARNESS = {'mkImpl': ('Logic__mkImpl__vec_PTRef_RR', 'void harness(void) { h_setup(); struct PTRef x = h_pick_bool(), y = h_pick_bool();\n  struct PTRef d[3]; d[0] = x; d[1] = y; struct vec_PTRef v; v.data = d; v.sz = 2; v.cap = 3;\n  struct PTRef r = Logic__mkImpl__vec_PTRef_RR((struct Logic *)0, &v);\n  RES_OK(r); RES_BOOL(r);\n  __CPROVER_assert(den_of(r.x) == (!den_of(x.x) || den_of(y.x)), "mkImpl(x, y) denotes x => y");\n  OSMT_REACH("return");\n}\n', ()), 'mkXor': ('Logic__mkXor__vec_PTRef_RR', 'void harness(void) { h_setup(); struct PTRef x = h_pick_bool(), y = h_pick_bool();\n  struct PTRef d[3]; d[0] = x; d[1] = y; struct vec_PTRef v; v.data = d; v.sz = 2; v.cap = 3;\n  struct PTRef r = Logic__mkXor__vec_PTRef_RR((struct Logic *)0, &v);\n  RES_OK(r); RES_BOOL(r);\n  __CPROVER_assert(den_of(r.x) == (den_of(x.x) != den_of(y.x)), "mkXor(x, y) denotes x xor y");\n  OSMT_REACH("return");\n}\n', ()), 'mkIte': ('Logic__mkIte__vec_PTRef_RR', 'void harness(void) { h_setup(); struct PTRef c = h_pick_bool(), x = h_pick(), y = h_pick(); __CPROVER_assume(g_t[x.x].sort == g_t[y.x].sort);\n  struct PTRef d[3]; d[0] = c; d[1] = x; d[2] = y; struct vec_PTRef v; v.data = d; v.sz = 3; v.cap = 3;\n  struct PTRef r = Logic__mkIte__vec_PTRef_RR((struct Logic *)0, &v);\n  __CPROVER_assert(!__osmt_thrown, "a well-sorted ite is accepted");\n  RES_OK(r); __CPROVER_assert(g_t[r.x < NT ? r.x : 0].sort == g_t[x.x].sort, "the ite has the sort of its branches");\n  __CPROVER_assert(den_of(r.x) == (den_of(c.x) ? den_of(x.x) : den_of(y.x)), "mkIte(c, x, y) denotes if c then x else y");\n  OSMT_REACH("return");\n}\n', ('C14_SORTS', 'C14_MAPS', 'C14_ITE')), 'mkBinaryEq': ('opensmt::Logic::mkBinaryEq', 'void harness(void) { h_setup(); struct PTRef x = h_pick(), y = h_pick(); __CPROVER_assume(g_t[x.x].sort == g_t[y.x].sort);\n  struct PTRef r = Logic__mkBinaryEq((struct Logic *)0, x, y);\n  RES_OK(r); RES_BOOL(r);\n  __CPROVER_assert(den_of(r.x) == (den_of(x.x) == den_of(y.x)), "mkBinaryEq(x, y) denotes x = y (different constants denote different values)");\n  OSMT_REACH("return");\n}\n', ('C14_SORTS', 'C14_MAPS')), 'mkAnd': ('Logic__mkAnd__vec_PTRef_RR', 'void harness(void) { h_setup(); t_int n = nondet_uchar() & 3;\n  struct PTRef d[3]; t_bool want = 1;\n  for (int k = 0; k < 3; k++) if (k < n) { d[k] = h_pick_bool(); want = want && (den_of(d[k].x) != 0); }\n  struct vec_PTRef v; v.data = (struct PTRef *)0; v.sz = 0; v.cap = 0; vec_PTRef__capacity__int(&v, 3); for (int k = 0; k < 3; k++) if (k < n) v.data[k] = d[k]; v.sz = n; v.cap = 3;\n  struct PTRef r = Logic__mkAnd__vec_PTRef_RR((struct Logic *)0, &v);\n  RES_OK(r); RES_BOOL(r);\n  __CPROVER_assert((den_of(r.x) != 0) == want, "mkAnd(args) denotes the conjunction of its arguments (0 to 3 arguments, any repetition or complement among them)");\n  OSMT_REACH("return");\n}\n', ('C14_SORTCALL',)), 'mkOr': ('Logic__mkOr__vec_PTRef_RR', 'void harness(void) { h_setup(); t_int n = nondet_uchar() & 3;\n  struct PTRef d[3]; t_bool want = 0;\n  for (int k = 0; k < 3; k++) if (k < n) { d[k] = h_pick_bool(); want = want || (den_of(d[k].x) != 0); }\n  struct vec_PTRef v; v.data = (struct PTRef *)0; v.sz = 0; v.cap = 0; vec_PTRef__capacity__int(&v, 3); for (int k = 0; k < 3; k++) if (k < n) v.data[k] = d[k]; v.sz = n; v.cap = 3;\n  struct PTRef r = Logic__mkOr__vec_PTRef_RR((struct Logic *)0, &v);\n  RES_OK(r); RES_BOOL(r);\n  __CPROVER_assert((den_of(r.x) != 0) == want, "mkOr(args) denotes the disjunction of its arguments (0 to 3 arguments, any repetition or complement among them)");\n  OSMT_REACH("return");\n}\n', ('C14_SORTCALL',)), 'mkEq': ('Logic__mkEq__vec_PTRef_RR', 'void harness(void) { h_setup(); t_int n = 2 + (nondet_uchar() & 1);\n  struct PTRef d[3]; d[0] = h_pick(); d[1] = h_pick(); d[2] = h_pick();\n  __CPROVER_assume(g_t[d[0].x].sort == g_t[d[1].x].sort && (n < 3 || g_t[d[2].x].sort == g_t[d[0].x].sort));\n  t_bool want = den_of(d[0].x) == den_of(d[1].x) && (n < 3 || den_of(d[1].x) == den_of(d[2].x));\n  struct vec_PTRef v; v.data = (struct PTRef *)0; v.sz = 0; v.cap = 0; vec_PTRef__capacity__int(&v, 3); for (int k = 0; k < 3; k++) v.data[k] = d[k]; v.sz = n; v.cap = 3;\n  struct PTRef r = Logic__mkEq__vec_PTRef_RR((struct Logic *)0, &v);\n  RES_OK(r); RES_BOOL(r);\n  __CPROVER_assert((den_of(r.x) != 0) == want, "mkEq(args) denotes the chain a1 = a2 (= a3)");\n  OSMT_REACH("return");\n}\n', ('C14_SORTS', 'C14_MAPS', 'C14_SORTCALL'))}
+PROVES = {'mkNot': 'mkNot(x) is equivalent to (not x)', 'mkImpl': 'mkImpl(x,y) is equivalent to (=> x y)', 'mkXor': 'mkXor(x,y) is equivalent to (xor x y)', 'mkIte': 'mkIte(c,x,y) is equivalent to (ite c x y)',
+          'mkBinaryEq': 'mkBinaryEq(x,y) is equivalent to (= x y)', 'mkAnd': 'mkAnd(args) is equivalent to (and args)', 'mkOr': 'mkOr(args) is equivalent to (or args)', 'mkEq': 'mkEq(args) is equivalent to the chain (= a1 a2 a3)'}
 def jobs(tier):
-    J = [bjob('mkNot', 'Logic__mkNot__PTRef', H_NOT)]
+    J = [bjob('mkNot', 'Logic__mkNot__PTRef', H_NOT, proves=PROVES['mkNot'])]
     for nm in ('mkImpl', 'mkXor', 'mkIte', 'mkBinaryEq', 'mkAnd', 'mkOr', 'mkEq'):
         root, h, defs = HARNESS[nm]
-        J.append(bjob(nm, root, h, defines=tuple(defs) + (('C14_SORTCALL',) if nm in ('mkImpl',) else ())))
-    return J
+        use = {'mkImpl': ('mkOr',), 'mkEq': ('mkAnd', 'mkBinaryEq')}.get(nm, ())      # callees replaced by their contracts (each is proved by its own job)
+        cn = {'mkOr': 'Logic__mkOr__vec_PTRef_RR', 'mkAnd': 'Logic__mkAnd__vec_PTRef_RR', 'mkBinaryEq': 'opensmt::Logic::mkBinaryEq'}
+        J.append(bjob(nm, root, h, proves=PROVES[nm], defines=tuple(d for d in defs if not (use and d in ('C14_SORTCALL', 'C14_MAPS', 'C14_SORTS'))) + tuple('C14_USE_' + u for u in use) + (('C14_NO_SYMREF',) if nm == 'mkEq' else ()), extra_stubs=tuple(cn[u] for u in use), weight=(30 if nm in ('mkAnd', 'mkOr') else 1)))
+    return J + C27.jobs_fold(4)       # constant folding of div / mod against Euclidean semantics (shared with C27, bounded: scaled width)
 def info(tier, results):
-    return {'level': 'proof', 'trusted_base': ['clang 14 AST', 'osmt2c lowering', 'CBMC 6.11'], 'assumptions': [], 'explanation': ''}
+    return {'level': 'proof', 'trusted_base': ['clang 14 AST', 'osmt2c lowering', 'CBMC 6.11'],
+            'assumptions': ['Logic::mkFun returns the hash-consed application term, whose denotation is the operator applied to the denotations of its arguments (stub contract; it is the one place a term is really built)',
+                            'the Logic / Pterm queries (hasSortBool, isNot, isTrue, isFalse, isConstant, getSortRef, getPterm, sortToIte, sortToEquality) answer as the arena says; different constants denote different values',
+                            'std::sort and Logic::termSort return some permutation (the equivalence obligation does not depend on which one)',
+                            'vec<T> storage behaves as the typed pool stubs (capacity keeps contents); at most 3 arguments per application (arena bound)',
+                            'in mkImpl and mkEq the callees mkOr / mkAnd / mkBinaryEq are replaced by their contracts, which their own jobs discharge'],
+            'explanation': 'Each Boolean constructor is lowered from Logic.cc and run over a term arena with an arbitrary interpretation (ghost denotation per term): the obligation is denotation(result) == operator(denotations of arguments), for every argument choice from a pool that contains true, false, atoms, negations, a conjunction and its negation, variables and distinct constants of an uninterpreted sort. Real width; loops closed by unwinding with the arena bound (3 arguments), unwinding assertions on. The div/mod folding jobs are shared with C27 (scaled width, bounded).'}
